@@ -16,7 +16,7 @@ pub(crate) const EV_W: u8 = 1; // write_header(image)
 pub(crate) const EV_F: u8 = 2; // flush (write buffer + sync_data)
 pub(crate) const EV_R: u8 = 3; // resize(len)
 pub(crate) const EV_S: u8 = 4; // sync_file
-const EV_MAX: usize = 8;
+pub(crate) const EV_MAX: usize = 8;
 static mut EV_N: usize = 0;
 static mut EV_KIND: [u8; EV_MAX] = [0; EV_MAX];
 static mut EV_ARG: [u64; EV_MAX] = [0; EV_MAX];
@@ -109,6 +109,28 @@ impl TransactionalMemory {
     pub(crate) fn verif_latch_failure(&self) {
         self.storage.verif_latch_failure();
     }
+}
+
+impl TransactionalMemory {
+    pub(crate) fn verif_primary_index(&self) -> usize {
+        self.state.lock().unwrap().header.verif_primary_index()
+    }
+    pub(crate) fn verif_flags(&self) -> (bool, bool) {
+        let st = self.state.lock().unwrap();
+        (st.header.recovery_required, st.header.two_phase_commit)
+    }
+    pub(crate) fn verif_set_two_phase(&self, v: bool) {
+        self.state.lock().unwrap().header.two_phase_commit = v;
+    }
+}
+
+/// (number of storage events, their kinds, god byte of the i-th header image)
+pub(crate) fn events() -> (usize, [u8; EV_MAX]) {
+    unsafe { (EV_N, EV_KIND) }
+}
+
+pub(crate) fn image_god_byte(i: usize) -> u8 {
+    ev_img(i)[9]
 }
 
 pub(crate) fn set_cur_mem(mem: &TransactionalMemory) {
@@ -473,7 +495,9 @@ fn c01_twin_commit_events_must_fail() {
 use crate::tree_store::page_store::buddy_allocator::verif_kani as bh;
 
 fn mark_case<const N: u32>() {
-    // one region of N pages (trailing region of a 16-page geometry), arbitrary allocator state
+    // one region of N pages (trailing region of a 16-page geometry), arbitrary allocator state;
+    // the region number is concrete (0) here - it indexes Vec<BuddyAllocator> - and arbitrary
+    // non-zero in c11_mark_page_allocated_bad_region
     let mut h = hh::any_two_valid_slots_header(0);
     h.verif_set_counts(0, N);
     let w = bh::any_words();
@@ -486,15 +510,13 @@ fn mark_case<const N: u32>() {
         region_allocators: alloc::vec![a],
     };
     let mem = literal_mem(h, Some(allocators));
-    let region: u32 = kani::any();
-    kani::assume(region <= 0x000F_FFFF);
     let index: u32 = kani::any();
     kani::assume(index <= MAX_PAGE_INDEX);
     let order: u8 = kani::any();
     kani::assume(order <= 31);
     macro_rules! call {
         ($k:expr) => {
-            mem.mark_page_allocated(PageNumber { region, page_index: index, page_order: $k })
+            mem.mark_page_allocated(PageNumber { region: 0, page_index: index, page_order: $k })
         };
     }
     let r = match order {
@@ -508,7 +530,7 @@ fn mark_case<const N: u32>() {
         _ => call!(31u8),
     };
     let o = match order { 0..=5 => order, 21 => 21, _ => 31 };
-    let inside = region == 0 && o <= 4 && (u64::from(index) + 1) << o <= u64::from(N);
+    let inside = o <= 4 && (u64::from(index) + 1) << o <= u64::from(N);
     match &r {
         Ok(()) => {
             assert!(inside, "an accepted page lies inside its region");
@@ -528,6 +550,34 @@ fn mark_case<const N: u32>() {
             kani::cover!(inside, "overlapping page rejected as corruption");
         }
     }
+    core::mem::forget(r);
+    core::mem::forget(mem);
+}
+
+// @harness props=C11,C14 tier=quick timeout=900 mem=12 stubbing=1 flavor=nodebug replay=scenario:page_alter
+// @desc mark_page_allocated with a page number whose region does not exist (any region >= 1 of a one-region database, any index and order): Err(Corrupted), no allocator is touched, nothing panics
+// @functions TransactionalMemory::{mark_page_allocated,check_page_order}, DatabaseLayout::num_regions
+// @bound one-region layout; region 1..2^20, index, order arbitrary; profile without debug assertions
+// @stubs alloc::fmt::format -> empty
+#[kani::proof]
+#[kani::unwind(6)]
+#[kani::stub(alloc::fmt::format, hh::no_format)]
+fn c11_mark_page_allocated_bad_region() {
+    let mut h = hh::any_two_valid_slots_header(0);
+    h.verif_set_counts(0, 13);
+    let allocators = Allocators {
+        region_tracker: RegionTracker::verif_empty(),
+        region_allocators: alloc::vec::Vec::new(),
+    };
+    let mem = literal_mem(h, Some(allocators));
+    let region: u32 = kani::any();
+    kani::assume(region >= 1 && region <= 0x000F_FFFF);
+    let index: u32 = kani::any();
+    kani::assume(index <= MAX_PAGE_INDEX);
+    let order: u8 = kani::any();
+    let r = mem.mark_page_allocated(PageNumber { region, page_index: index, page_order: order });
+    assert!(r.is_err(), "a page in a region that does not exist is rejected");
+    kani::cover!(order <= 20, "rejected because of the region");
     core::mem::forget(r);
     core::mem::forget(mem);
 }
